@@ -68,6 +68,10 @@ def keyfmt_applicable(case, keyfmt):
     raise ValueError(keyfmt)
 
 
+# alphabetical order = parameter position, but neither the order by length nor by (length, name)
+MONO_NAMES = ["pa_long", "pb", "pc0", "pd_x"]
+
+
 def run_case(case, keyfmt="tuple", symnames=None):
     """Run block_diagonalize; returns {name: gq.Series} in the ORIGINAL basis of the case.
 
@@ -82,7 +86,7 @@ def run_case(case, keyfmt="tuple", symnames=None):
     fmt = case["fmt"]
     terms = {gen.unkey(k): gq.dec(M) for k, M in case["H"].items()}
     kw = dict(subspace_indices=case["sub"], fully_diagonalize=implrun.build_fully(case), hermitian=case["hermitian"])
-    names = list(symnames) if (symnames and keyfmt == "expr") else ["p%d" % i for i in range(nparam)]
+    names = list(symnames) if (symnames and keyfmt == "expr") else MONO_NAMES[:nparam]
     assert len(names) == nparam and len(set(names)) == nparam
     syms = [sympy.Symbol(nm, real=True) for nm in names]
     if keyfmt == "tuple":
